@@ -871,7 +871,8 @@ def search_convergence(seed, n):
         if rng.random() < 0.25:
             les_ = [e for e in g._edges if type(e).__name__ == "EdgeLandmark"]
             if les_:
-                g.calc_chi2()
+                if rng.random() < 0.5:
+                    g.calc_chi2()  # (either the placeholder or the real offset is what the edge sees first)
                 for e_ in les_:
                     real = e_.offset
                     e_.offset = type(real).identity()
